@@ -4,7 +4,8 @@
 //! case: {"cols":[name], "types":["s"|"i"|"f"], "rows":[[cell]], "split":[batch sizes], "nobatch":bool}
 //!   cell: string|null for "s" (Utf8), integer|null for "i" (Int64), string|null for "f" (Float64,
 //!   the string is parsed with f64::from_str so that NaN/inf can be sent).
-//! output: {"csv":[bytes], "json":[bytes]} — exactly what `OutputFormatter::write` wrote.
+//! output: {"csv":[bytes], "json":[bytes]} — exactly what `OutputFormatter::write` wrote; "ftext": per cell, the
+//! text std's `f64::to_string` gives for a Float64 cell (null elsewhere).
 use arrow::array::{ArrayRef, Float64Array, Int64Array, StringArray};
 use arrow::datatypes::{DataType, Field, Schema};
 use arrow::record_batch::RecordBatch;
@@ -79,5 +80,17 @@ fn case(v: &Value) -> Value {
     OutputFormatter::new(OutputFormat::Csv).write(&mut csv, &batches).unwrap();
     let mut js = Vec::new();
     OutputFormatter::new(OutputFormat::Json).write(&mut js, &batches).unwrap();
-    json!({"csv": csv, "json": js, "batches": batches.len()})
+    // what std's `f64::to_string` prints for every Float64 cell (the model takes std Display as given)
+    let ftext: Vec<Vec<Value>> = rows
+        .iter()
+        .map(|r| {
+            (0..cols.len())
+                .map(|j| match (types[j].as_str(), r[j].as_str()) {
+                    ("f", Some(s)) => Value::String(s.parse::<f64>().expect("float text").to_string()),
+                    _ => Value::Null,
+                })
+                .collect()
+        })
+        .collect();
+    json!({"csv": csv, "json": js, "batches": batches.len(), "ftext": ftext})
 }
